@@ -304,3 +304,35 @@ class Slicer:
         res.calls.add(c.path if not c.res else c.res)
         for a in t.args:
             self._visit(body_id, a, env, res, seen, depth)
+
+
+def through_channels(prog, sl, body_id, slice_):
+    """When a value's slice ends at `rx.recv()` of a tokio mpsc channel, continue at what is *sent* into channels of the same
+    element type anywhere in the crate (`tx.send(v)`, `permit.send(v)`, `try_send`): returns the union of the slices of the sent
+    values, or None when the slice does not pass through a receive."""
+    import re
+    tys = set()
+    for (sb, sbb) in slice_.sites:
+        si = prog.info(sb)
+        t = si.call_at(sbb) if si is not None else None
+        if t is None or t.callee is None or not t.args:
+            continue
+        if "tokio::sync::mpsc" in t.callee.path and t.callee.path.split("::")[-1] in ("recv", "try_recv", "recv_many", "blocking_recv"):
+            m = re.search(r"Receiver<(.*)>$", (si.body.operand_ty(t.args[0]) or "").strip())
+            if m:
+                tys.add(m.group(1).strip())
+    if not tys:
+        return None
+    out = None
+    for b in prog.facts.lib_bodies():
+        bi = prog.info(b.id)
+        for bb, t in bi.calls(lambda c: "tokio::sync::mpsc" in c.path and c.path.split("::")[-1] in ("send", "try_send", "blocking_send", "send_timeout")):
+            if len(t.args) < 2:
+                continue
+            if (bi.body.operand_ty(t.args[1]) or "").strip() in tys:
+                s2 = sl.of_resolved(b.id, t.args[1])
+                if out is None:
+                    out = s2
+                else:
+                    out.update(s2)
+    return out
